@@ -320,3 +320,97 @@ def native_store_check():
                 if got != data[k]:
                     return {"reproduced": True, "detail": f"data_encoding=gzip, store order 3,1,2,0, strategy {strategy!r}: chunk {k} comes back as {got[:20]!r}"}
     return {"reproduced": False, "detail": "buffered chunks come back intact"}
+
+
+# --------------------------------------------------------------------------- Shard.store_cmc_chunk (routing to minishards)
+
+from pyvc.interp import model as _model  # noqa: E402
+import neuroglancer_scripts.sharded_file_accessor as _sfa  # noqa: E402
+
+
+@_model(_sfa.InMemByteArray, _sfa.OnDiskByteArray)
+def m_bytearray_container(interp, *a, **k):
+    """both byte-array classes start empty: the abstract container"""
+    return ByteArrayModel(SBytes.from_concrete(b""))
+
+class MiniShardStoreAbs(Contract):
+    target = SF + "MiniShard.store_cmc_chunk"
+    name = "MiniShard.store_cmc_chunk[call-site:logged]"
+    props = ()
+    has_body = False
+
+    def setup(self, c, cfg):
+        raise NotImplementedError
+
+    def apply(self, interp, fn, args, kwargs):
+        ctx().calls_log.append((self.target, {"self": args[0], "buf": args[1], "cmc": args[2]}, None))
+        return None
+
+
+@register
+class ShardStore(Contract):
+    """Shard.store_cmc_chunk(buf, cmc): the chunk goes, unchanged and under its id, to THE minishard whose
+    number is get_minishard_key(cmc) (C09's routing contract), which is created with the shard's spec and
+    buffering options if it does not exist yet; other minishards are not touched; the shard becomes dirty.
+    configs: minishard_bits, which minishards exist already"""
+    target = SF + "Shard.store_cmc_chunk"
+    props = ("C05", "C04")
+    use_at_call_sites = False
+    configs = ((0, ()), (0, (0,)), (1, ()), (1, (0,)), (1, (1,)), (1, (0, 1)), (2, (1, 3)), ("read-only", ()))
+
+    def local_contracts_for(self, cfg):
+        return {MiniShardStoreAbs.target: MiniShardStoreAbs()}
+
+    def setup(self, c, cfg):
+        from neuroglancer_scripts.sharded_base import ShardSpec
+        from neuroglancer_scripts.sharded_file_accessor import MiniShard, Shard
+        mb, existing = cfg
+        self.cfg = cfg
+        ro = mb == "read-only"
+        self.spec = mk_shard_spec(c)                       # symbolic spec object pinned to this configuration
+        a = self.spec.attrs
+        c.assume(SBool(z3.And(a["minishard_bits"].t == BV64(0 if ro else mb), a["shard_bits"].t == BV64(1), a["preshift_bits"].t == BV64(0))))
+        self.existing = {np.uint64(k): SObj(MiniShard, {"shard_spec": self.spec, "tag": k}) for k in existing}
+        self.kwargs = {"strategy": "in memory"}
+        self.obj = SObj(Shard, {"shard_spec": self.spec, "minishard_dict": dict(self.existing), "dirty": False,
+                                "kwargs": self.kwargs, "can_write_cmc": not ro})
+        self.cmc = c.u64("cmc", inp=True)
+        self.buf = SBytes.fresh(c, "buf")
+        return (self.obj, self.buf, self.cmc), {}
+
+    def bind(self, fn, args, kwargs):
+        return {}
+
+    def ensures(self, c, result):
+        from neuroglancer_scripts.sharded_file_accessor import MiniShard
+        mb, existing = self.cfg
+        yield ("writable-shard-only", mb != "read-only")
+        calls = [x for x in c.calls_log if x[0] == MiniShardStoreAbs.target]
+        yield ("exactly-one-minishard-receives-the-chunk", len(calls) == 1)
+        if len(calls) != 1:
+            return
+        call = calls[0][1]
+        yield ("chunk-bytes-and-id-passed-on-unchanged", call["buf"] is self.buf and call["cmc"] is self.cmc)
+        d = self.obj.attrs["minishard_dict"]
+        target = call["self"]
+        keys = [k for k, v in d.items() if v is target]
+        yield ("receiver-is-registered-in-minishard_dict", len(keys) == 1)
+        if len(keys) != 1:
+            return
+        k = int(keys[0])
+        # sharded.md: minishard number = low minishard_bits bits of (id >> preshift_bits)   (preshift 0 here)
+        want = z3.BV2Int(self.cmc.t & BV64((1 << mb) - 1), False) if mb else z3.IntVal(0)
+        yield ("receiver-is-the-minishard-whose-number-the-format-derives-from-the-id", SBool((self.cmc.t & BV64((1 << mb) - 1)) == BV64(k)))
+        if k in [int(x) for x in self.existing]:
+            yield ("existing-minishard-reused", target is self.existing[np.uint64(k)] and len(d) == len(self.existing))
+        else:
+            a = target.attrs if isinstance(target, SObj) else {}
+            yield ("new-minishard:created-with-the-shard's-spec-and-buffering-options",
+                   isinstance(target, SObj) and target.cls is MiniShard and a.get("shard_spec") is self.spec and len(d) == len(self.existing) + 1
+                   and type(a.get("_chunk_buffer")) is dict and a.get("_appended") == np.uint64(0))
+        yield ("other-minishards-untouched", all(d.get(kk) is v for kk, v in self.existing.items()))
+        yield ("shard-marked-dirty", self.obj.attrs.get("dirty") is True)
+
+    def raises_when(self, c):
+        from neuroglancer_scripts.sharded_base import ShardedIOError
+        return [(ShardedIOError, self.cfg[0] == "read-only")]
